@@ -63,3 +63,52 @@ def import_obligations(ctx, prop, select, rule, why):
             n += 1
             ctx.ob(o['ok'], '%s [%s; decided by %s]' % (o['desc'], why, o['rule']), 'from-%s|%s' % (prop, o['key']), loc=o['loc'], rule=rule, detail=o.get('detail'))
     return n
+
+
+# ---------------------------------------------------------------------------------------------
+# builder setters (added after the mutation sweep): a configuration value the application hands to a builder reaches the field of
+# that name.  Several properties start from "the configured X": a setter that drops its argument, or stores it in a neighbouring
+# field (copy/paste), silently replaces X by the default.  Each property claims the setters whose value it depends on.
+SETTER_FIELD = {   # method (without with_) -> field, where the names differ
+    'default_tls_implementation': 'tls_impl', 'root_ca_from_memory': 'root_ca_bytes', 'root_ca_from_path': 'root_ca_bytes',
+    'user_property': 'user_properties', 'subscription': 'subscriptions', 'subscription_simple': 'subscriptions', 'topic_filter': 'topic_filters',
+    'disconnect_packet': 'disconnect',
+}
+
+
+def builder_setters(ctx, select, rule, why):
+    """For every `<X>Builder::with_<name>` selected by `select(builder, method)`: on every path the method stores (or pushes) a value
+    derived from its argument into the field of that name.  Returns the number of setters checked."""
+    import re
+    from ..mir import norm, show
+    from .. import prims
+    n = 0
+    for v in ctx.F.all_fns():
+        p = norm(v.path)
+        m = re.search(r'(\w+Builder)(?:<.*>)?::(with_\w+)$', p)
+        if not m or v.f.get('parent') or not select(m.group(1), m.group(2)):
+            continue
+        n += 1
+        bname, meth = m.group(1), m.group(2)
+        want = SETTER_FIELD.get(meth[5:], meth[5:])
+        params = [x for x in (v.varnames.get(i) for i in range(1, (v.f.get('argc') or 0) + 1)) if x and x != 'self']
+        must = prims.view_must_blocks(v)
+        effects = []      # (field last component, rendered value, on every path)
+        for (i, s_, pe, rve) in v.field_writes():
+            ps = show(pe)
+            if ps.startswith('self.'):
+                effects.append((ps.split('.')[-1].split('@')[0], show(rve), i in must))
+        for mu in prims.mutations(v):
+            if mu.kind == 'mutcall' and mu.method in ('push', 'push_back', 'insert', 'extend') and show(mu.path).startswith('self.'):
+                args = ' '.join(show(mu.cs.arg(k)) for k in range(1, len(mu.cs.args))) if getattr(mu, 'cs', None) is not None else ''
+                effects.append((show(mu.path).split('.')[-1].split('@')[0], args, mu.bb in must))
+        effects = [x for x in effects if not x[0].isdigit()]
+        fields = sorted({f for f, val, mst in effects})
+        ok_field = fields == [want]
+        uses = [val for f, val, mst in effects if f == want]
+        ok_val = (not params) or any(re.search(r'\b%s\b' % re.escape(pn), val) for val in uses for pn in params) or (meth[5:] in ('user_property',) and bool(uses))
+        ok_must = any(mst for f, val, mst in effects if f == want) or (meth[5:] == 'user_property' and bool(uses))
+        ctx.ob(ok_field and ok_val and ok_must, '%s::%s stores its argument in `%s` on every path and touches no other field (writes: %s) [%s]' % (bname, meth, want, fields, why),
+               'setter|%s|%s' % (bname, meth), loc=v.loc(), rule=rule)
+    return n
+
